@@ -71,4 +71,9 @@ def PlanOk (plan : Plan) (ws : List Int) : Prop := planOk plan ws = true
 
 instance (plan : Plan) (ws : List Int) : Decidable (PlanOk plan ws) := by unfold PlanOk; infer_instance
 
+/-- `mlw_encode` writes into `malloc(inbuf_size*2+1024)` (mlw_encode.c 867-869) through `bitbuf_putbit`, whose bounds
+    `assert` is compiled out; the bit position only grows, so the writer stays inside the buffer exactly when the final
+    stream is not longer than the buffer.  (Not a theorem: the size of the stream depends on the choices of the search.) -/
+def fitsBuffer (nWeights streamBytes : Nat) : Bool := decide (streamBytes ≤ nWeights * 2 + 1024)
+
 end VelaVerif.MlwPlan
